@@ -1,5 +1,6 @@
 import Mainchain.Model.Chain
 import Mainchain.Model.Query
+import Mainchain.Model.Genesis
 /-
 The line protocol of /verif/PROTOCOL.md : script parser, trace/digest printer and the
 interpreter loop state.  Core Lean only (compiled into `mdriver`).
@@ -373,6 +374,7 @@ structure Interp where
   nAccts : Nat := 0
   govs : List (Nat × Msg) := []
   halted : Bool := false
+  commits : Nat := 0
 
 def pRespFields (rs : List Resp) : String :=
   let fs := (rs.zipIdx.map (fun (r, k) => r.map (fun (f : String × String) => s!"{k}.{f.1}={f.2}"))).flatten
@@ -444,6 +446,20 @@ def stepToks (wall : Nat) (it : Interp) (line : String) (toks : List String) : I
       | some out => (it, [s!"Q {k} ok {out}"])
       | none => (it, [s!"Q {k} err"])
     | none => ({ it with halted := true }, [s!"! bad-line {line}"])
+  | ["EXPORTIMPORT"] =>
+    match it.node with
+    | some n =>
+      match Genesis.exportImport Facts.initGenesisOrder n.committed with
+      | .ok s' => ({ it with node := some { committed := s', working := s', check := s' } },
+                   ["X ok inv=0"] ++ digest s' it.nAccts ++ ["X2 same"])
+      | .error _ => (it, ["X panic"])
+    | none => ({ it with halted := true }, [s!"! bad-line {line}"])
+  | ["CRASH"] =>
+    match it.node with
+    | some n =>
+      let n' := n.crash
+      ({ it with node := some n', govs := [] }, [s!"Z ok {it.commits}"] ++ digest n'.committed it.nAccts)
+    | none => ({ it with halted := true }, [s!"! bad-line {line}"])
   | ["DIGEST"] =>
     match it.node with
     | some n => (it, digest n.committed it.nAccts)
@@ -463,7 +479,7 @@ def stepToks (wall : Nat) (it : Interp) (line : String) (toks : List String) : I
     match it.node with
     | some n =>
       let n' := n.commit
-      ({ it with node := some n' }, ["K ok"] ++ digest n'.committed it.nAccts)
+      ({ it with node := some n', commits := it.commits + 1 }, ["K ok"] ++ digest n'.committed it.nAccts)
     | none => ({ it with halted := true }, [s!"! bad-line {line}"])
   | _ => ({ it with halted := true }, [s!"! bad-line {line}"])
 
